@@ -32,8 +32,9 @@ RULE = ('random call graphs: 1-5 levels, 1-2 callables per level drawn from func
         'reference semantics reports an error / runs out of fuel are dropped and counted; non-trivial = at least one '
         'nested call was executed and a value other than none was delivered; distinct = distinct model text + entries; '
         'families with a signature of their own: every 50th case (i % 50 == 7) a local variable named like the function / '
-        'external entity it invokes, every 50th case (i % 50 == 23) a constant or an enumeration named like a function '
-        'with a caller that uses both; instance operations and derived attributes use the NAME self (any letter case) in '
+        'external entity it invokes, every 50th case (i % 50 == 23) two model elements of different kinds that share a name '
+        '(function / constant, / enumeration, / external entity, / class; enumeration / external entity; constant / '
+        'external entity) with a caller that uses both - ordinary cases, no signature of their own; instance operations and derived attributes use the NAME self (any letter case) in '
         'relate / unrelate / delete; every case repeats one or two invocations after a change of the population made '
         'from Python; every 4th case interprets ANOTHER model (same loader, same process) in the middle of its invocations; '
         'every 10th case invokes a function that fails half way between the others and repeats them after it; every 50th '
@@ -1002,11 +1003,6 @@ def _judge(case, obs, calls, raised):
                                                         ' [pure]' if c['pure'] else '', c['text'])
                          for c in case['callables'])
         sig = 'differs-from-spec:' + comp
-        if (case.get('family') == 'clash' and raised is not None and raised[1].startswith('AttributeError')
-                and "'function' object has no attribute" in raised[1]
-                and any(c.get('clash') == 'class/function' for c in case['callables'])):
-            # a function named like a class hides the class from `Class::operation()`: the one clash that is left
-            sig = 'class-function-name-clash'
         fails.append({'sig': sig,
                       'what': '%s\nentries: %r\npopulation: %r\nenums (modeled order): %r consts: %r\n%s' % (
                           what, case['entries'], case['pop'], case['enums'], case['consts'], text)})
